@@ -160,12 +160,19 @@ class Prop(BaseProp):
     def fullmatch_oracle(self, case, s, unsup):
         """True / False / None (undecided).  Supported patterns: polynomial reference matcher over
         the AST, cross-checked against re.fullmatch whenever re answers within the time limit."""
+        if unsup and getattr(self, "_re_hard", False):
+            # `re` already needed more than the time limit on this pattern once: do not wait again for
+            # each of its executions (a pattern on which sre backtracks for seconds costs minutes otherwise)
+            self.probes["re_fullmatch_skipped_after_timeout"] += 1
+            return None
         try:
             with _Timer(2.0 if unsup else 0.05):
                 re_ans = re.fullmatch(case["pattern"], s) is not None
         except _TimedOut:
             re_ans = None
             self.probes["re_fullmatch_timeout"] += 1
+            if unsup:
+                self._re_hard = True
         if unsup:
             return re_ans
         ref = G.ast_fullmatch(case["ast"], s)
@@ -175,6 +182,7 @@ class Prop(BaseProp):
 
     # ------------------------------------------------------------ a whole case
     def run_case(self, case):
+        self._re_hard = False
         fs = G.features(case["ast"])
         violations = []
         keys = set()
@@ -190,7 +198,9 @@ class Prop(BaseProp):
             log = self.world.log
             sites = tuple(sorted(set((e[5], e[3]) for e in log)))
             keys.add(derive(case["pattern"], sites) & 0xFFFFFFFFFFFF)
-            digests.append(fast_digest([log, None if neg else oc, None if neg else s]))   # negated classes: KF-C17-1 makes value and verdict hash-seed dependent
+            # (an undecided oracle question is a question of wall-clock time: it never enters the digest)
+            oc_d = "ok_match_unsupported" if oc == "ok_undecided" else oc
+            digests.append(fast_digest([log, None if neg else oc_d, None if neg else s]))   # negated classes: KF-C17-1 makes value and verdict hash-seed dependent
             if not sample:
                 sample.update({"pattern": case["pattern"], "max_repeat": case["max_repeat"],
                                "letters": case["letters"], "route": case["route"],
